@@ -12,6 +12,7 @@ mutual
       exact eq_comm
     | redirect c t => simp [Err.is, Err.leaves]
     | foreign => simp [Err.is, Err.leaves]
+    | ctxDone c => simp [Err.is, Err.leaves]
     | wrap e => simp only [Err.is, Err.leaves]; exact is_iff_leaf e k
     | join es => simp only [Err.is, Err.leaves]; exact isAny_iff_leaf es k
     | chain es => simp only [Err.is, Err.leaves]; exact isAny_iff_leaf es k
@@ -27,6 +28,7 @@ mutual
     | kind k => simp [Err.asRedirect, Err.leaves, Leaf.redirect?]
     | redirect c t => simp [Err.asRedirect, Err.leaves, Leaf.redirect?]
     | foreign => simp [Err.asRedirect, Err.leaves, Leaf.redirect?]
+    | ctxDone c => simp [Err.asRedirect, Err.leaves, Leaf.redirect?]
     | wrap e => simp only [Err.asRedirect, Err.leaves]; exact asRedirect_eq e
     | join es => simp only [Err.asRedirect, Err.leaves]; exact asRedirectAny_eq es
     | chain es => simp only [Err.asRedirect, Err.leaves]; exact asRedirectAny_eq es
@@ -46,6 +48,7 @@ mutual
     | kind k => simp [Err.asRedirect, Err.isRedirect]
     | redirect c t => simp [Err.asRedirect, Err.isRedirect]
     | foreign => simp [Err.asRedirect, Err.isRedirect]
+    | ctxDone c => simp [Err.asRedirect, Err.isRedirect]
     | wrap e => simp only [Err.asRedirect, Err.isRedirect]; exact isRedirect_eq e
     | join es => simp only [Err.asRedirect, Err.isRedirect]; exact isRedirectAny_eq es
     | chain es => simp only [Err.asRedirect, Err.isRedirect]; exact isRedirectAny_eq es
@@ -77,6 +80,7 @@ theorem has_authn (e : Err) : e.has (.respond .authn) = e.is .authentication := 
     | kind k => cases k <;> simp [Leaf.action, Kind.action] at ha; exact hl
     | redirect c t => simp [Leaf.action] at ha
     | foreign => simp [Leaf.action] at ha
+    | ctxDone c => simp [Leaf.action] at ha
   · intro h; exact ⟨_, h, rfl⟩
 
 theorem has_authz (e : Err) : e.has (.respond .authz) = e.is .authorization := by
@@ -88,6 +92,7 @@ theorem has_authz (e : Err) : e.has (.respond .authz) = e.is .authorization := b
     | kind k => cases k <;> simp [Leaf.action, Kind.action] at ha; exact hl
     | redirect c t => simp [Leaf.action] at ha
     | foreign => simp [Leaf.action] at ha
+    | ctxDone c => simp [Leaf.action] at ha
   · intro h; exact ⟨_, h, rfl⟩
 
 theorem has_precond (e : Err) : e.has (.respond .precond) = e.is .argument := by
@@ -99,6 +104,7 @@ theorem has_precond (e : Err) : e.has (.respond .precond) = e.is .argument := by
     | kind k => cases k <;> simp [Leaf.action, Kind.action] at ha; exact hl
     | redirect c t => simp [Leaf.action] at ha
     | foreign => simp [Leaf.action] at ha
+    | ctxDone c => simp [Leaf.action] at ha
   · intro h; exact ⟨_, h, rfl⟩
 
 theorem has_noRule (e : Err) : e.has (.respond .noRule) = e.is .noRule := by
@@ -110,6 +116,7 @@ theorem has_noRule (e : Err) : e.has (.respond .noRule) = e.is .noRule := by
     | kind k => cases k <;> simp [Leaf.action, Kind.action] at ha; exact hl
     | redirect c t => simp [Leaf.action] at ha
     | foreign => simp [Leaf.action] at ha
+    | ctxDone c => simp [Leaf.action] at ha
   · intro h; exact ⟨_, h, rfl⟩
 
 theorem has_comm (e : Err) : e.has (.respond .comm) = (e.is .timeout || e.is .communication) := by
@@ -124,6 +131,7 @@ theorem has_comm (e : Err) : e.has (.respond .comm) = (e.is .timeout || e.is .co
       · exact Or.inl hl
     | redirect c t => simp [Leaf.action] at ha
     | foreign => simp [Leaf.action] at ha
+    | ctxDone c => simp [Leaf.action] at ha
   · rintro (h | h)
     · exact ⟨_, h, rfl⟩
     · exact ⟨_, h, rfl⟩
@@ -143,6 +151,7 @@ theorem has_redirect (e : Err) : e.has .redirect = e.isRedirect := by
         have := h _ hl
         simp [Leaf.redirect?] at this
     | foreign => simp [Leaf.action] at ha
+    | ctxDone c => simp [Leaf.action] at ha
   · rintro ⟨r, hr⟩
     obtain ⟨l, hl, hlr⟩ := List.exists_of_findSome?_eq_some hr
     cases l <;> simp [Leaf.redirect?] at hlr
@@ -809,5 +818,108 @@ theorem serveFailure_ne_allowed (tr : Transport) (cfg : Cfg) (acc : Accept) (hs 
       exact serve_ne_allowed_of_error tr cfg acc c e he
 
 theorem action_foreign : Err.foreign.action = .respond .internal := by decide
+
+/-! ### the errors of package `context` inside a value, and the context of the request -/
+
+theorem filterCtx_keep {l : Leaf} (h : l.isCtxDone = false) (ls : List Leaf) :
+    (l :: ls).filter (fun l => !l.isCtxDone) = l :: ls.filter (fun l => !l.isCtxDone) := by
+  rw [List.filter_cons, h]; rfl
+
+theorem filterCtx_drop (c : CtxErr) (ls : List Leaf) :
+    (Leaf.ctxDone c :: ls).filter (fun l => !l.isCtxDone) = ls.filter (fun l => !l.isCtxDone) := by
+  rw [List.filter_cons]; rfl
+
+theorem any_action_filter (a : Action) (ha : a ≠ .respond .internal) (ls : List Leaf) :
+    (ls.any fun l => l.action == a) = ((ls.filter fun l => !l.isCtxDone).any fun l => l.action == a) := by
+  induction ls with
+  | nil => rfl
+  | cons l ls ih =>
+    cases l with
+    | ctxDone c =>
+      have : (Leaf.action (.ctxDone c) == a) = false := by
+        simp only [Leaf.action, beq_eq_false_iff_ne, ne_eq]; exact fun h => ha h.symm
+      rw [filterCtx_drop, List.any_cons, this, Bool.false_or, ih]
+    | kind k => rw [filterCtx_keep rfl, List.any_cons, List.any_cons, ih]
+    | redirect c t => rw [filterCtx_keep rfl, List.any_cons, List.any_cons, ih]
+    | foreign => rw [filterCtx_keep rfl, List.any_cons, List.any_cons, ih]
+
+theorem find_congr {α : Type} {p q : α → Bool} (l : List α) (h : ∀ a ∈ l, p a = q a) : l.find? p = l.find? q := by
+  induction l with
+  | nil => rfl
+  | cons a l ih =>
+    rw [List.find?_cons, List.find?_cons, h a (List.mem_cons_self ..),
+      ih fun b hb => h b (List.mem_cons_of_mem _ hb)]
+
+/-- the class of a value is a function of its failures other than the `context` errors -/
+theorem action_eq_of_essential (e : Err) :
+    e.action = (priority.find? fun a => e.essential.any fun l => l.action == a).getD (.respond .internal) := by
+  unfold Err.action Err.essential
+  congr 1
+  apply find_congr
+  intro a ha
+  refine any_action_filter a ?_ e.leaves
+  intro h; subst h; revert ha; decide
+
+theorem findSome_redirect_filter (ls : List Leaf) :
+    ls.findSome? Leaf.redirect? = (ls.filter fun l => !l.isCtxDone).findSome? Leaf.redirect? := by
+  induction ls with
+  | nil => rfl
+  | cons l ls ih =>
+    cases l with
+    | ctxDone c => rw [filterCtx_drop, List.findSome?_cons, ← ih]; rfl
+    | kind k => rw [filterCtx_keep rfl, List.findSome?_cons, List.findSome?_cons, ih]
+    | redirect c t => rw [filterCtx_keep rfl, List.findSome?_cons, List.findSome?_cons, ih]
+    | foreign => rw [filterCtx_keep rfl, List.findSome?_cons, List.findSome?_cons, ih]
+
+theorem action_congr_essential {e e' : Err} (h : e.essential = e'.essential) : e.action = e'.action := by
+  rw [action_eq_of_essential e, action_eq_of_essential e', h]
+
+theorem asRedirect_congr_essential {e e' : Err} (h : e.essential = e'.essential) :
+    e.asRedirect = e'.asRedirect := by
+  rw [asRedirect_eq, asRedirect_eq, findSome_redirect_filter e.leaves, findSome_redirect_filter e'.leaves]
+  exact congrArg _ h
+
+/-- the whole answer of a translator is a function of the failures other than the `context` errors (and of the
+challenges attached) -/
+theorem respond_congr_essential (tr : Transport) (cfg : Cfg) (acc : Accept) {e e' : Err} (ch : List String)
+    (h : e.essential = e'.essential) :
+    tr.translator.respond cfg acc ⟨e, ch⟩ = tr.translator.respond cfg acc ⟨e', ch⟩ := by
+  unfold Translator.respond
+  simp only [tr_classify, action_congr_essential h, asRedirect_congr_essential h, challengeHeaders]
+
+theorem mem_essential {e : Err} {l : Leaf} : l ∈ e.essential ↔ l ∈ e.leaves ∧ l.isCtxDone = false := by
+  simp [Err.essential]
+
+/-- a value whose failures other than the `context` errors all have class `c` (and there is one) has class `c` -/
+theorem action_of_essential_class (e : Err) (c : Class) (hne : e.essential ≠ [])
+    (hall : ∀ l ∈ e.essential, l.action = .respond c) : e.action = .respond c := by
+  have key : ∀ a, a ≠ .respond .internal → e.has a = (a == .respond c) := by
+    intro a ha
+    unfold Err.has
+    rw [any_action_filter a ha]
+    show (e.essential.any fun l => l.action == a) = _
+    cases hl : e.essential with
+    | nil => exact absurd hl hne
+    | cons l ls =>
+      rw [hl] at hall
+      rw [Bool.eq_iff_iff]
+      simp only [List.any_eq_true, beq_iff_eq]
+      constructor
+      · rintro ⟨x, hx, hxa⟩; rw [← hxa, hall x hx]
+      · intro h; exact ⟨l, List.mem_cons_self .., by rw [hall l (List.mem_cons_self ..), h]⟩
+  rw [action_unfold, key _ (by decide), key _ (by decide), key _ (by decide), key _ (by decide), key _ (by decide),
+    key _ (by decide)]
+  cases c <;> decide
+
+theorem handlerServe_ne_allowed (tr : Transport) (cfg : Cfg) (acc : Accept) (rc : ReqCtx) (x : Option Err)
+    (ctx : Ctx) (hf : x.isSome = true ∨ ctx.pipelineError.isSome = true) :
+    handlerServe tr.translator cfg acc rc x ctx ≠ .allowed := by
+  cases x with
+  | some e => exact respond_ne_allowed tr cfg acc _
+  | none =>
+    rcases hf with hf | hf
+    · cases hf
+    · obtain ⟨e, he⟩ := Option.isSome_iff_exists.mp hf
+      exact serve_ne_allowed_of_error tr cfg acc ctx e he
 
 end Heimdall.ErrMap
